@@ -80,7 +80,7 @@ void behaves_like_fresh(const std::string &key, const Spline<Real, o> &s, const 
 template <size_t o>
 void const_ops_case(size_t n, std::pair<size_t, size_t> wa, std::pair<size_t, size_t> wb, int hist) {
   auto &E = Engine::get();
-  auto g = gridvars(n);
+  auto g = gridpoints(n);
   Grid<Real> grid(g);
   Real x1 = Real::var("x1"), x2 = Real::var("x2"), k = Real::var("k");
   E.assume(sym::ne(k, Real(0)));
@@ -143,7 +143,7 @@ void const_ops_case(size_t n, std::pair<size_t, size_t> wa, std::pair<size_t, si
 template <size_t o>
 void mutation_case(size_t n, std::pair<size_t, size_t> wa, std::pair<size_t, size_t> wb, int mut, int hist) {
   auto &E = Engine::get();
-  auto g = gridvars(n);
+  auto g = gridpoints(n);
   Grid<Real> grid(g);
   Real x1 = Real::var("x1"), x2 = Real::var("x2"), k = Real::var("k");
   auto a = mkspline<o>(grid, wa.first, wa.second, "a");
@@ -193,7 +193,7 @@ void mutation_case(size_t n, std::pair<size_t, size_t> wa, std::pair<size_t, siz
 template <size_t o>
 void throwing_case(size_t n, std::pair<size_t, size_t> wa, std::pair<size_t, size_t> wb) {
   auto &E = Engine::get();
-  auto g = gridvars(n);
+  auto g = gridpoints(n);
   Grid<Real> grid(g);
   // a logically different grid: same points but the last one moved by a positive amount
   Real delta = Real::var("delta");
@@ -241,6 +241,26 @@ void add(std::vector<Case> &cases) {
       }
   }
 }
+#ifdef LARGE
+// long supports on the fixed rational grid (coefficients, scalars, x1, x2 symbolic): sampled windows of a LARGE-point grid.
+// NOT registered: at 10 points the predicate/evaluation histories fork beyond the case budget (measured: 600+ paths in 240 s per case);
+// long supports with a history are covered by the C02 large variant instead.
+template <size_t o>
+void add_large(std::vector<Case> &cases) {
+  size_t n = LARGE;
+  for (auto wa : windows_sample(n, 5, 61 + o))
+    for (auto wb : std::vector<std::pair<size_t, size_t>>{{0, n}, {n / 2, n}}) {
+      std::string base = "/o" + std::to_string(o) + "/n" + std::to_string(n) + "/wa" + W(wa) + "/wb" + W(wb);
+      for (int hist = 0; hist < 2; hist++) {
+        cases.push_back({"const-ops-large" + base + "/h" + std::to_string(hist), [=] { const_ops_case<o>(n, wa, wb, hist); }});
+        if (wb.first == 0)
+          for (int mut = 0; mut < 8; mut++) cases.push_back({"mutation-large" + base + "/m" + std::to_string(mut) + "/h" + std::to_string(hist), [=] { mutation_case<o>(n, wa, wb, mut, hist); }});
+      }
+      cases.push_back({"throwing-large" + base, [=] { throwing_case<o>(n, wa, wb); }});
+    }
+}
+void hx_cases(std::vector<Case> &cases) { add_large<1>(cases); }
+#else
 void hx_cases(std::vector<Case> &cases) {
   add<0>(cases);
   add<1>(cases);
@@ -248,3 +268,4 @@ void hx_cases(std::vector<Case> &cases) {
   add<2>(cases);
 #endif
 }
+#endif
